@@ -3,6 +3,7 @@ package sx
 import (
 	"fmt"
 	"go/types"
+	"math"
 	"path"
 	"path/filepath"
 	"strconv"
@@ -381,4 +382,45 @@ func init() {
 	externals["(*os.File).ReadFrom"] = func(fr *Frame, a []Value) Value {
 		return ioCopy(fr, fileIface(fr, a[0]), a[1].(Iface), -1)
 	}
+}
+
+// ---------- math on concrete floats ----------
+
+func init() {
+	f1 := func(name string, fn func(float64) float64) {
+		externals["math."+name] = func(fr *Frame, a []Value) Value {
+			x, ok := a[0].(float64)
+			if !ok {
+				panic(abort{st: StUnsupported, msg: "math." + name + " of a non-concrete float"})
+			}
+			return fn(x)
+		}
+	}
+	f1("Abs", math.Abs)
+	f1("Floor", math.Floor)
+	f1("Ceil", math.Ceil)
+	f1("Trunc", math.Trunc)
+	f1("Sqrt", math.Sqrt)
+	f1("Round", math.Round)
+	externals["math.Float64bits"] = func(fr *Frame, a []Value) Value {
+		x, ok := a[0].(float64)
+		if !ok {
+			panic(abort{st: StUnsupported, msg: "math.Float64bits of a non-concrete float"})
+		}
+		return math.Float64bits(x)
+	}
+	externals["math.Float64frombits"] = func(fr *Frame, a []Value) Value {
+		x, ok := a[0].(uint64)
+		if !ok {
+			panic(abort{st: StUnsupported, msg: "math.Float64frombits of a symbolic word"})
+		}
+		return math.Float64frombits(x)
+	}
+	externals["math.IsNaN"] = func(fr *Frame, a []Value) Value { x, _ := a[0].(float64); return math.IsNaN(x) }
+	externals["math.IsInf"] = func(fr *Frame, a []Value) Value {
+		x, _ := a[0].(float64)
+		return math.IsInf(x, int(int64(a[1].(uint64))))
+	}
+	externals["math.Max"] = func(fr *Frame, a []Value) Value { return math.Max(a[0].(float64), a[1].(float64)) }
+	externals["math.Min"] = func(fr *Frame, a []Value) Value { return math.Min(a[0].(float64), a[1].(float64)) }
 }
